@@ -827,17 +827,11 @@ theorem key_zeroed (P : List Nat) (s : Strm) (n : Nat) (c : Nat) : key P (s.zero
   | none => rfl
   | some k => exact colsum_map_zero s.ph n k
 
-theorem putOutlet_key {P Q : List Nat} {same : Bool} (hs : same = true → P = Q) {o o' : Strm} {v : Row}
-    (h : putOutlet P Q same o v = .ok o') (c : Nat) : o'.pkg = o.pkg ∧ key P o'.ph c = rowKey Q v c := by
+theorem putOutlet_key {P Q : List Nat} {same : Bool} (hs : same = true → P = Q) {fphase : Char} {o o' : Strm} {v : Row}
+    (h : putOutlet P Q same fphase o v = .ok o') (c : Nat) : o'.pkg = o.pkg ∧ key P o'.ph c = rowKey Q v c := by
   unfold putOutlet at h
   split at h
-  · split at h
-    · cases h
-    · split at h
-      · rename_i hz
-        cases h
-        exact ⟨rfl, by rw [key_zeroed, rowKey_of_isZero hz]⟩
-      · split at h <;> cases h
+  · exact putSingle_key hs h c
   · exact putSingle_key hs h c
 
 theorem setPhases_pkg {n : Nat} {s s' : Strm} {phases : List Char} (h : setPhases n s phases = .ok s') :
@@ -884,29 +878,27 @@ theorem complement_lt (m : Nat) (bad : List Nat) : ∀ k ∈ complement m bad, k
   have := (List.mem_filter.mp hk).1
   simpa using this
 
-theorem selection_lt {Q : List Nat} {same : Bool} {ids : IDs} {ex : Bool} {K : List Nat}
-    (h : selection Q same ids ex = .ok (.some K)) : ∀ k ∈ K, k < Q.length := by
+theorem selection_lt {Q : List Nat} {ids : IDs} {ex : Bool} {K : List Nat}
+    (h : selection Q ids ex = .ok (.some K)) : ∀ k ∈ K, k < Q.length := by
   unfold selection at h
   cases ids with
   | all => simp only [] at h; split at h <;> cases h
   | one c =>
     simp only [] at h
     cases hc : pos Q c with
-    | none => rw [hc] at h; simp only [] at h; split at h <;> cases h
+    | none => rw [hc] at h; simp only [] at h; split at h
+              · cases h; exact complement_lt _ _
+              · cases h
     | some k0 =>
       rw [hc] at h
       simp only [] at h
       split at h
       · cases h; exact complement_lt _ _
-      · split at h
-        · cases h; intro k hk; simp at hk; subst hk; exact pos_lt hc
-        · cases h
+      · cases h; intro k hk; simp at hk; subst hk; exact pos_lt hc
   | many cs =>
     simp only [] at h
     split at h
-    · split at h
-      · cases h
-      · cases h; exact complement_lt _ _
+    · cases h; exact complement_lt _ _
     · obtain ⟨K', hK', h⟩ := bind_ok.mp h
       cases h
       exact positions_lt hK'
